@@ -776,3 +776,180 @@ Print Assumptions C08_transparent_rank_across_encodings.
 Print Assumptions C08_transparent_rank_binary64.
 Print Assumptions C08_transparent_rank_integer.
 Print Assumptions C08_transparent_rank_law_necessary.
+
+(* ==== AUDIT (notes/C08.md "Audit matrix"; proofs in Proofs/Audit08.v, Audit08Float.v) ===============================
+   (A1)-(A2) the mechanism: the null-skipping folds of iter_traits.rs with an ARBITRARY callback; (A3)-(A4) the boolean
+   aggregations vany / vall; (A5)-(A7) the masked family of tea-agg; (A8)-(A9) what insertion DOES change, exactly;
+   (A10) re-encoding and insertion composed for the whole family; (A11) the canonical-null assumption is necessary;
+   (A12)-(A14) binary64 instances. *)
+From Tevec Require Proofs.Audit08 Proofs.Audit08Float.
+
+(* (A1) vfold_n / vapply_n (callback on the unwrapped value): any callback, any accumulator; vfold (callback on the
+   element): callbacks that agree on elements with equal option views *)
+Theorem C08_fold_mechanism_encoding :
+  forall {A T1 T2} (D1 : IsNone T1 A) (D2 : IsNone T2 A) (xs1 : list T1) (xs2 : list T2), SameView D1 D2 xs1 xs2 ->
+    (forall {U} (f : U -> A -> U) init,
+       vfold_n (DT := D1) f init xs1 = vfold_n (DT := D2) f init xs2 /\ vapply_n (DT := D1) f init xs1 = vapply_n (DT := D2) f init xs2)
+    /\ (forall {U} (f1 : U -> T1 -> U) (f2 : U -> T2 -> U) init,
+          (forall acc a b, same_view D1 D2 a b -> not_none b = true -> f1 acc a = f2 acc b) ->
+          vfold (DT := D1) f1 init xs1 = vfold (DT := D2) f2 init xs2).
+Proof.
+  intros A T1 T2 D1 D2 xs1 xs2 H. split.
+  - intros U f init. split; [apply Audit08.vfold_n_same_view|apply Audit08.vapply_n_same_view]; exact H.
+  - intros U f1 f2 init Hf. apply Audit08.vfold_same_view; assumption.
+Qed.
+(* (A2) ... and under null insertion *)
+Theorem C08_fold_mechanism_transparent :
+  forall {A T} {D : IsNone T A} (xs ys : list T), NullInsert xs ys ->
+    (forall {U} (f : U -> A -> U) init, vfold_n f init ys = vfold_n f init xs /\ vapply_n f init ys = vapply_n f init xs)
+    /\ (forall {U} (f : U -> T -> U) init, vfold f init ys = vfold f init xs).
+Proof.
+  intros A T D xs ys H. split.
+  - intros U f init. split; [apply Audit08.vfold_n_insert|apply Audit08.vapply_n_insert]; exact H.
+  - intros U f init. apply Audit08.vfold_insert. exact H.
+Qed.
+(* (A3) vany / vall (agg.rs:168, 200): Vec<bool> against Vec<Option<bool>> against the option view *)
+Theorem C08_encoding_bool_aggregations :
+  forall {T1 T2} (D1 : IsNone T1 bool) (D2 : IsNone T2 bool) (xs1 : list T1) (xs2 : list T2), SameView D1 D2 xs1 xs2 ->
+    vany (DB := D1) xs1 = vany (DB := D2) xs2 /\ vall (DB := D1) xs1 = vall (DB := D2) xs2.
+Proof. intros T1 T2 D1 D2 xs1 xs2 H. split; [apply Audit08.vany_same_view|apply Audit08.vall_same_view]; exact H. Qed.
+(* (A4) nulls are neither true nor false *)
+Theorem C08_transparent_bool_aggregations :
+  forall {T} (D : IsNone T bool) (xs ys : list T),
+    (NullInsert xs ys -> vany (DB := D) ys = vany (DB := D) xs /\ vall (DB := D) ys = vall (DB := D) xs)
+    /\ ((forall v, In v xs -> is_none v = true) -> vany (DB := D) xs = false /\ vall (DB := D) xs = true).
+Proof.
+  intros T D xs ys. split.
+  - intros H. split; [apply Audit08.vany_insert|apply Audit08.vall_insert]; exact H.
+  - apply Audit08.bool_aggs_all_null.
+Qed.
+(* (A5) the masked sum / count / mean (tea-agg/src/lib.rs:26-99): data and mask re-encoded independently *)
+Theorem C08_encoding_masked :
+  forall {A} {NA : Num A} {F} {NF : Num F} (tof : A -> F) {T1 T2 U1 U2}
+         (D1 : IsNone T1 A) (D2 : IsNone T2 A) (E1 : IsNone U1 bool) (E2 : IsNone U2 bool)
+         (xs1 : list T1) (xs2 : list T2) (m1 : list U1) (m2 : list U2) (mp : nat),
+    SameView D1 D2 xs1 xs2 -> SameView E1 E2 m1 m2 ->
+    n_vsum_filter (DT := D1) (DU := E1) xs1 m1 = n_vsum_filter (DT := D2) (DU := E2) xs2 m2
+    /\ n_sum_filter (DT := D1) (DU := E1) xs1 m1 = n_sum_filter (DT := D2) (DU := E2) xs2 m2
+    /\ vmean_filter (DT := D1) (DU := E1) tof mp xs1 m1 = vmean_filter (DT := D2) (DU := E2) tof mp xs2 m2.
+Proof. intros. apply Audit08.masked_same_view; assumption. Qed.
+(* (A6) ... transparent to inserted observations that do not count: flag null, flag false, or value null *)
+Theorem C08_transparent_masked :
+  forall {A} {NA : Num A} {F} {NF : Num F} (tof : A -> F) {T U} {DT : IsNone T A} {DU : IsNone U bool}
+         (xs xs' : list T) (m m' : list U) (mp : nat),
+    Audit08.MaskInsert (combine xs m) (combine xs' m') ->
+    n_vsum_filter xs' m' = n_vsum_filter xs m /\ n_sum_filter xs' m' = n_sum_filter xs m
+    /\ vmean_filter tof mp xs' m' = vmean_filter tof mp xs m.
+Proof. intros A NA F NF tof T U DT DU xs xs' m m' mp H. exact (Audit08.masked_insert tof xs xs' m m' mp H). Qed.
+(* (A7) an all-true mask selects everything: the masked family is then the valid family of the whole series *)
+Theorem C08_masked_all_true :
+  forall {T} (xs : list T), mask_filter (DU := IsNone_plain) xs (map (fun _ => true) xs) = xs.
+Proof. intros. apply Audit08.masked_all_true. Qed.
+(* (A8) what insertion changes, exactly: the length and the number of nulls grow by the number of inserted elements,
+   the number of valid elements does not, and count_valid + count_none = len stays true *)
+Theorem C08_insertion_changes_exactly :
+  forall {A} {NA : Num A} {T} {D : IsNone T A} (xs ys : list T), NullInsert xs ys ->
+    length xs <= length ys /\ count_valid ys = count_valid xs
+    /\ count_none ys = count_none xs + (length ys - length xs) /\ count_valid ys + count_none ys = length ys.
+Proof. intros A NA T D xs ys H. exact (Audit08.insert_counts H). Qed.
+(* (A9) counting the NULL value counts the nulls (it is not transparent, and must not be) *)
+Theorem C08_count_null_value :
+  forall {A} {NA : Num A} {T} {D : IsNone T A} (nl : T) (xs ys : list T), is_none nl = true ->
+    vcount_value nl xs = count_none xs
+    /\ (NullInsert xs ys -> vcount_value nl ys = vcount_value nl xs + (length ys - length xs)).
+Proof.
+  intros A NA T D nl xs ys Hn. split; [apply Audit08.vcount_null_is_count_none; exact Hn|].
+  intros H. apply Audit08.vcount_null_insert; assumption.
+Qed.
+(* (A10) re-encoding and insertion composed: the whole aggregation family and every vfold_n-based aggregation *)
+Theorem C08_transparent_across_encodings_full :
+  forall {A} {NA : Num A} {T1 T2} (D1 : IsNone T1 A) (D2 : IsNone T2 A) {F} {NF : Num F} (tof : A -> F)
+         (xs : list T1) (xs' ys : list T2),
+    SameView D1 D2 xs xs' -> NullInsert xs' ys ->
+    vals ys = vals xs /\
+    count_valid ys = count_valid xs /\ vsum ys = vsum xs /\ vmean tof ys = vmean tof xs /\
+    vmin ys = vmin xs /\ vmax ys = vmax xs /\
+    option_map unwrap (vfirst ys) = option_map unwrap (vfirst xs) /\
+    option_map unwrap (vlast ys) = option_map unwrap (vlast xs) /\
+    (forall mp, vmean_var tof mp ys = vmean_var tof mp xs /\ vvar tof mp ys = vvar tof mp xs /\
+                vstd tof mp ys = vstd tof mp xs /\ vskew tof mp ys = vskew tof mp xs /\
+                vkurt tof mp ys = vkurt tof mp xs) /\
+    (forall (v1 : T1) (v2 : T2), same_view D1 D2 v1 v2 -> not_none v1 = true -> vcount_value v2 ys = vcount_value v1 xs) /\
+    (forall {U} (f : U -> A -> U) init, vfold_n f init ys = vfold_n f init xs).
+Proof. intros A NA T1 T2 D1 D2 F NF tof xs xs' ys HS HI. exact (Audit08.across_encodings_full tof HS HI). Qed.
+(* (A11) canonical nulls only (DESIGN 5.4) is a NECESSARY assumption: on every carrier with a NaN, Some(NaN) in an
+   optional series is not the null of the float series — it is counted and summed as a valid element *)
+Theorem C08_noncanonical_null_excluded :
+  forall {A} {NA : Num A}, nisnan (nnan : A) = true ->
+    ~ same_view (IsNone_float (A := A)) IsNone_option nnan (Some nnan)
+    /\ count_valid (DT := IsNone_float (A := A)) [nnan] = 0 /\ count_valid (DT := IsNone_option (A := A)) [Some nnan] = 1
+    /\ vsum (DT := IsNone_float (A := A)) [nnan] = None /\ vsum (DT := IsNone_option (A := A)) [Some nnan] = Some (nadd nzero nnan).
+Proof.
+  intros A NA H. split; [exact (Audit08.some_nan_not_same_view H)|]. exact (Audit08.some_nan_counts_as_valid H).
+Qed.
+(* (A12)-(A14) at binary64 (NumF64, what the correspondence evaluates), outright, bit for bit *)
+Theorem C08_encoding_aggregations_binary64 :
+  forall xs : list PrimFloat.float,
+  let ys := map Audit08Float.opt_of_f64 xs in
+  count_valid xs = count_valid ys /\ count_none xs = count_none ys /\ vsum xs = vsum ys
+  /\ vmean (fun x : PrimFloat.float => x) xs = vmean (fun x : PrimFloat.float => x) ys /\ vmin xs = vmin ys /\ vmax xs = vmax ys
+  /\ vargmin xs = vargmin ys /\ vargmax xs = vargmax ys
+  /\ (forall mp, vmean_var (fun x : PrimFloat.float => x) mp xs = vmean_var (fun x : PrimFloat.float => x) mp ys
+                 /\ vstd (fun x : PrimFloat.float => x) mp xs = vstd (fun x : PrimFloat.float => x) mp ys
+                 /\ vskew (fun x : PrimFloat.float => x) mp xs = vskew (fun x : PrimFloat.float => x) mp ys
+                 /\ vkurt (fun x : PrimFloat.float => x) mp xs = vkurt (fun x : PrimFloat.float => x) mp ys).
+Proof. exact Audit08Float.f64_encoding_aggregations. Qed.
+Theorem C08_nan_insertion_binary64 :
+  forall (p : list bool) (xs : list PrimFloat.float),
+  let ys := insert_pat PrimFloat.nan p xs in
+  count_valid ys = count_valid xs /\ vsum ys = vsum xs
+  /\ vmean (fun x : PrimFloat.float => x) ys = vmean (fun x : PrimFloat.float => x) xs
+  /\ vmin ys = vmin xs /\ vmax ys = vmax xs
+  /\ (forall mp, vmean_var (fun x : PrimFloat.float => x) mp ys = vmean_var (fun x : PrimFloat.float => x) mp xs
+                 /\ vstd (fun x : PrimFloat.float => x) mp ys = vstd (fun x : PrimFloat.float => x) mp xs
+                 /\ vskew (fun x : PrimFloat.float => x) mp ys = vskew (fun x : PrimFloat.float => x) mp xs
+                 /\ vkurt (fun x : PrimFloat.float => x) mp ys = vkurt (fun x : PrimFloat.float => x) mp xs)
+  /\ count_none ys = (count_none xs + (length ys - length xs))%nat.
+Proof. exact Audit08Float.f64_nan_insertion. Qed.
+Theorem C08_some_nan_binary64 :
+  ~ same_view F64.IsNoneF64 F64.IsNoneOptF64 PrimFloat.nan (Some PrimFloat.nan)
+  /\ count_valid (DT := F64.IsNoneF64) [PrimFloat.nan] = 0%nat /\ count_valid (DT := F64.IsNoneOptF64) [Some PrimFloat.nan] = 1%nat.
+Proof. exact Audit08Float.f64_some_nan_is_not_null. Qed.
+
+(* ---- non-vacuity ---- *)
+Example C08_ex_audit_bool :
+  SameView (IsNone_plain (A := bool)) (IsNone_opt false) [true; false] [Some true; Some false]
+  /\ vany (DB := IsNone_opt false) [None; Some false; None] = false /\ vall (DB := IsNone_opt false) [None; Some false; None] = false
+  /\ vall (DB := IsNone_opt false) [None; None] = true /\ vany (DB := IsNone_opt false) [None; None] = false.
+Proof. split; [repeat constructor|]. vm_compute. auto. Qed.
+Example C08_ex_audit_mask_insert :
+  (* base: values [1; 2] with flags [true; true]; inserted: (9, false), (null, true), (7, null flag) *)
+  Audit08.MaskInsert (D := IsNone_opt 0%Z) (DU := IsNone_opt false)
+    (combine [Some 1%Z; Some 2%Z] [Some true; Some true])
+    (combine [Some 9%Z; Some 1%Z; None; Some 7%Z; Some 2%Z] [Some false; Some true; Some true; None; Some true])
+  /\ n_vsum_filter (NA := AggNumZ) (DT := IsNone_opt 0%Z) (DU := IsNone_opt false)
+       [Some 9%Z; Some 1%Z; None; Some 7%Z; Some 2%Z] [Some false; Some true; Some true; None; Some true] = (2, 3%Z).
+Proof.
+  split; [|vm_compute; reflexivity]. cbn [combine].
+  apply Audit08.mi_skip; [reflexivity|]. apply Audit08.mi_keep. apply Audit08.mi_skip; [reflexivity|].
+  apply Audit08.mi_skip; [reflexivity|]. apply Audit08.mi_keep. apply Audit08.mi_nil.
+Qed.
+Example C08_ex_audit_binary64 :
+  Audit08Float.opt_of_f64 PrimFloat.nan = None /\ Audit08Float.opt_of_f64 1%float = Some 1%float
+  /\ vsum (NA := F64.NumF64) (DT := F64.IsNoneF64) (insert_pat PrimFloat.nan [true; false; true] [1%float; 2.5%float]) = Some 3.5%float.
+Proof. vm_compute. auto. Qed.
+
+Print Assumptions C08_fold_mechanism_encoding.
+Print Assumptions C08_fold_mechanism_transparent.
+Print Assumptions C08_encoding_bool_aggregations.
+Print Assumptions C08_transparent_bool_aggregations.
+Print Assumptions C08_encoding_masked.
+Print Assumptions C08_transparent_masked.
+Print Assumptions C08_masked_all_true.
+Print Assumptions C08_insertion_changes_exactly.
+Print Assumptions C08_count_null_value.
+Print Assumptions C08_transparent_across_encodings_full.
+Print Assumptions C08_noncanonical_null_excluded.
+Print Assumptions C08_encoding_aggregations_binary64.
+Print Assumptions C08_nan_insertion_binary64.
+Print Assumptions C08_some_nan_binary64.
